@@ -76,7 +76,14 @@ func TestRtpfbReports(t *testing.T) {
 			hdr := kit.GenHeader(t, "h", kit.HeaderShape{NoExtensions: true})
 			payload := kit.Payload(t, "p", 1200)
 			s := &fbSent{}
-			if rapid.Bool().Draw(t, "twcc") {
+			if kind := rapid.IntRange(0, 8).Draw(t, "twcc"); kind == 0 {
+				// a packet on the transport-cc stream that does not carry the extension: recorded once, by SSRC and RTP number
+				hdr.SSRC, hdr.SequenceNumber = 800, rapid.Uint16().Draw(t, "rtpseq")
+				s.ssrc, s.rtpSeq = 800, hdr.SequenceNumber
+				s.size = hdr.MarshalSize() + len(payload)
+				s.before = time.Now()
+				_, err = twccW.Write(&hdr, payload, nil)
+			} else if kind <= 4 {
 				hdr.SSRC, hdr.SequenceNumber = 800, rapid.Uint16().Draw(t, "rtpseq")
 				ext, _ := (rtp.TransportCCExtension{TransportSequence: twccNext}).Marshal()
 				_ = hdr.SetExtension(twccExtID, ext)
